@@ -257,6 +257,28 @@ def s_collect_any(ex, st, func, args, ty):
     return res
 
 
+def s_iter_any_all(ex, st, func, args, ty):
+    """Iterator::any(f) / all(f): the closure is run element by element and the search stops at the first decisive answer"""
+    which = 'any' if re.search(r'as Iterator>::any::<', func) else 'all'
+    body = closure_body(ex, func); out = []
+    for s0, items in force(ex, st, args[0]):
+        states = [s0]
+        for x in items:
+            nxt = []
+            for s_ in states:
+                for s2, r in run_closure(ex, s_, body, args[1], [x]):
+                    c = r.t
+                    for val in (True, False):
+                        cc = c if val else z3.Not(c)
+                        if not ex.feasible(s2, cc): continue
+                        s3 = s2.clone(); s3.pc.append(cc)
+                        if val == (which == 'any'): out.append((s3, BoolV(z3.BoolVal(which == 'any'))))
+                        else: nxt.append(s3)
+            states = nxt
+        out += [(s_, BoolV(z3.BoolVal(which != 'any'))) for s_ in states]
+    return out
+
+
 def s_opt_closure(ex, st, func, args, ty):
     """Option::and_then(f) / Option::map(f): None -> None; Some(v) -> f(v) / Some(f(v))"""
     o = obj(st, args[0]); d = ex.discr(st, o).t; out = []
@@ -386,7 +408,7 @@ def conversions(ctx):
 def extra_summaries():
     return [(r'as Iterator>::map::<', s_lazy('map')), (r'as Iterator>::filter::<', s_lazy('filter')), (r'as Iterator>::filter_map::<', s_lazy('filter_map')),
             (r'as Iterator>::enumerate$', s_lazy('enumerate')), (r'as Iterator>::flatten$', s_lazy('flatten')),
-            (r'as Iterator>::collect::<', s_collect_any), (r'Option::<.*>::and_then::<|Option::<.*>::map::<', s_opt_closure),
+            (r'as Iterator>::collect::<', s_collect_any), (r'as Iterator>::any::<|as Iterator>::all::<', s_iter_any_all), (r'Option::<.*>::and_then::<|Option::<.*>::map::<', s_opt_closure),
             (r'^<&str as Into<std::string::String>>::into$|^<str as ToString>::to_string$|^<std::string::String as From<&str>>::from$|<&str as ToString>::to_string$|^<std::string::String as Clone>::clone$|^<str as ToOwned>::to_owned$', s_const_string),
             (r'String::push_str$', s_push_str), (r'String::as_str$|<std::string::String as AsRef<str>>::as_ref$', s_identity),
             (r'^<JsonValue as PartialEq>::(eq|ne)$|^<Option<JsonValue> as PartialEq>::(eq|ne)$|^<std::option::Option<JsonValue> as PartialEq>::(eq|ne)$', s_jv_eq),
